@@ -1048,3 +1048,63 @@ def rule_sort_on_a_copy(ctx, rep, rid: str) -> None:
                 rep.ok(rid, key, {"in_place": inplace, "comparator_runs_script": runs_script})
     if n == 0:
         raise AnalysisError(f"{rid}: no sort of an element list found")
+
+
+# ---- the spacing of doubles is that of the whole number, not of a part of it --------------------------------------
+def rule_ulp_of_the_whole_number(ctx, rep, rid: str) -> None:
+    """Shortest-digits printing stops when the digits written identify the double, i.e. when the rest is below half the
+    distance to the neighbouring double.  That distance belongs to the NUMBER being printed; the ulp of its fraction
+    alone is smaller as soon as the number is 1 or more, so digits keep coming that the number does not have."""
+    rep.rule(rid, "in the number-to-text routines, math.ulp / math.nextafter is asked about the number being printed (the Number parameter of the routine, possibly through abs), never about a part computed from it (n - whole, a remainder) nor about a helper's parameter that receives such a part: the tolerance of the digit loop is the spacing of the whole number", floor=1)
+    n_sites = 0
+    vmcls = ctx.facts.vm_dispatcher()[0].cls
+    fam = [f for f in ctx.tree.funcs if not isinstance(f.node, ast.Lambda) and f.module.name in ("vm", "values") and any(isinstance(c, ast.Call) and norm(c.func) in ("math.ulp", "math.nextafter") for c in f.own_nodes())]
+    if not fam:
+        raise AnalysisError(f"{rid}: no routine asks for the spacing of doubles (math.ulp / math.nextafter)")
+
+    def derived_locals(f: Func) -> Set[str]:
+        out: Set[str] = set()
+        for a in f.own_nodes():
+            if isinstance(a, ast.Assign) and len(a.targets) == 1 and isinstance(a.targets[0], ast.Name):
+                v = a.value
+                if isinstance(v, ast.BinOp) and isinstance(v.op, (ast.Sub, ast.Mod)):
+                    out.add(a.targets[0].id)
+                if isinstance(v, ast.Call) and norm(v.func) in ("math.modf", "math.fmod"):
+                    out.add(a.targets[0].id)
+            if isinstance(a, ast.Assign) and isinstance(a.targets[0], ast.Tuple) and isinstance(a.value, ast.Call) and norm(a.value.func) == "math.modf":
+                out |= {t.id for t in a.targets[0].elts if isinstance(t, ast.Name)}
+        return out
+
+    def derived_params(f: Func) -> Dict[str, str]:
+        """parameters of f that some caller binds to a part of a number: name -> description"""
+        out: Dict[str, str] = {}
+        ps = [p for p in f.params() if p != "self"]
+        for cs in ctx.cg.sites:
+            if not any(t is f for t in cs.targets):
+                continue
+            dl = derived_locals(cs.func)
+            for i, a in enumerate(cs.call.args):
+                if i >= len(ps):
+                    break
+                if (isinstance(a, ast.Name) and a.id in dl) or (isinstance(a, ast.BinOp) and isinstance(a.op, (ast.Sub, ast.Mod))):
+                    out[ps[i]] = f"{cs.func.name} passes {short(a, 30)}"
+        return out
+
+    for f in fam:
+        dl = derived_locals(f)
+        dp = derived_params(f)
+        for c in f.own_nodes():
+            if not (isinstance(c, ast.Call) and norm(c.func) in ("math.ulp", "math.nextafter") and c.args):
+                continue
+            n_sites += 1
+            a = c.args[0]
+            while isinstance(a, ast.Call) and norm(a.func) == "abs" and a.args:
+                a = a.args[0]
+            key = f"{f.qual}:{short(c, 40)}"
+            if isinstance(a, ast.Name) and a.id in dp:
+                rep.bad(rid, key, f"{f.qual} takes the spacing of doubles from `{a.id}`, which is only a part of the number being printed ({dp[a.id]}): for a number of 1 or more the fraction's ulp is smaller than the number's, so the digit loop writes digits the double does not have ((1.5).toString(3) gets one digit too many)", f"{f.module.rel}:{c.lineno}")
+            elif isinstance(a, ast.Name) and a.id in dl:
+                rep.bad(rid, key, f"{f.qual} takes the spacing of doubles from `{a.id}`, a part computed from the number (a difference or remainder), not from the number being printed: the tolerance of the digit loop is too small for numbers of 1 or more", f"{f.module.rel}:{c.lineno}")
+            else:
+                rep.ok(rid, key, {"of": norm(a)})
+    rep.analysed["ulp_sites"] = n_sites
